@@ -371,7 +371,29 @@ pub fn run(spec_v: &Value, verbose: bool) -> CaseReport {
                             format!("require(\"{r}\") -> {path} (names {:?}) although {} matches exactly", names[fi], spec.files[single_exact[0]]),
                         ));
                     } else {
-                        *counters.entry("resolved.fuzzy".into()).or_insert(0) += 1;
+                        // among fuzzy candidates the one with the fewest leading segments wins
+                        let lead = |f: usize| -> usize {
+                            cand_names(f)
+                                .iter()
+                                .filter_map(|n| {
+                                    [r.as_str(), mapped.as_str()].iter().filter_map(|q| {
+                                        if n == q { Some(0) } else { n.strip_suffix(&format!(".{q}")).map(|pre| pre.split('.').filter(|s| !s.is_empty()).count()) }
+                                    }).min()
+                                })
+                                .min()
+                                .unwrap_or(usize::MAX)
+                        };
+                        // judged only against files that are derivable in exactly one way (the index
+                        // registers one name per file; which one is not settled by the statement)
+                        let best_single = fuzzy.iter().copied().filter(|f| names[*f].len() == 1 && !spec.module_map).map(lead).min();
+                        if names[fi].len() == 1 && !spec.module_map && best_single.map(|b| lead(fi) > b).unwrap_or(false) {
+                            violations.push((
+                                "C33:fuzzy-match-not-the-closest".into(),
+                                format!("require(\"{r}\") -> {path} with {} leading segments although a candidate with {} exists", lead(fi), best_single.unwrap_or(0)),
+                            ));
+                        } else {
+                            *counters.entry("resolved.fuzzy".into()).or_insert(0) += 1;
+                        }
                     }
                 } else {
                     violations.push((
